@@ -230,7 +230,8 @@ func (s *Server) verifyConsensusFieldMain(cp *params.CaravelParams, seedHeader *
 	}
 	// The committee sizes are fixed by the protocol version in force, never chosen by the
 	// block's author: an honest proposer always copies them from the protocol parameters.
-	if cp != nil && (consensusData.ProposerThreshold != cp.ProposerThreshold || consensusData.ValidatorThreshold != cp.ValidatorThreshold) {
+	if cp != nil && (consensusData.ProposerThreshold != cp.ProposerThreshold || consensusData.ValidatorThreshold != cp.ValidatorThreshold ||
+		consensusData.CertValThreshold != cp.CertValThreshold) {
 		logging.Error("VerifyHeader failed. Thresholds differ from the protocol parameters.", "Round", consensusData.Round,
 			"proposerTh", consensusData.ProposerThreshold, "validatorTh", consensusData.ValidatorThreshold)
 		return errInvalidConsensusData
@@ -319,7 +320,10 @@ func (s *Server) verifyConsensusFieldMain(cp *params.CaravelParams, seedHeader *
 		cd.cp = &yp.CaravelParams
 		cd.lbVld = certVldReader
 		cd.seed = certCon.Seed
-		cd.validatorThreshold = certCon.CertValThreshold
+		// the certificate committee size of the protocol version recorded on the certificate
+		// look-back header (what the live vote path uses), not the value that header's
+		// proposer declared
+		cd.validatorThreshold = yp.CertValThreshold
 		ucCertificates, err := ExtractUconValidators(header, params.LookBackCert)
 		if err != nil {
 			logging.Error("VerifyHeader failed. Get ucCertificates from Look back block failed.", "Round", consensusData.Round, "RoundIndex", consensusData.RoundIndex, err)
